@@ -102,6 +102,7 @@ class ReproCheck:
             rows = []
             errs = []
             tool_limit = False
+            timed_out = False
             din = os.path.join(workdir, f"w{idx}_in")
             argv0, paths0 = worldgen.write_world(world, din)
             # where the order of a small set decides (ties between a few models, candidate batches of a few requests) two hash
@@ -127,9 +128,12 @@ class ReproCheck:
                         continue
                     rows.append(normalise(paths["csv"]))
                 except subprocess.TimeoutExpired:
-                    errs.append(f"run {run}: timeout")
+                    # a process that does not finish within the wall-clock limit (loaded machine, a solver that does not
+                    # return): the world is not judged -- wall-clock is tooling, never a verdict
+                    tool_limit = True
+                    timed_out = True
             res = {"index": idx, "hash": world["hash"], "source": world["meta"]["source"],
-                   "scheduler": world["flags"]["scheduler"], "errors": errs, "viol": [], "tool_limit": tool_limit,
+                   "scheduler": world["flags"]["scheduler"], "errors": errs, "viol": [], "tool_limit": tool_limit, "timed_out": timed_out,
                    "ntypes": len({r["name"].split(":")[0] for p in world["cluster"] for w in p["workers"] for r in w["resources"]})}
             if len(rows) == len(seeds):
                 a = rows[0]
@@ -171,6 +175,9 @@ class ReproCheck:
                 inconclusive.append(f"randomness source {s} in {per_source.get(s, 0)} pairs")
         if errors:
             inconclusive.append(f"{len(errors)} processes failed: {errors[0][:200]}")
+        nto = sum(1 for w in worlds if w.get("timed_out"))
+        if nto > max(2, 0.1 * len(worlds)):
+            inconclusive.append(f"{nto} of {len(worlds)} worlds had a process that did not finish within its wall-clock limit")
         cov = {"evaluations": len(compared) * 2, "distinct_nontrivial": len({w["hash"] for w in compared}),
                "rule": "each world is executed twice by fresh `python main.py` processes with PYTHONHASHSEED=1 and =2 and separate "
                        "output directories; distinct = hash of the inputs; every world uses at least one source of randomness "
@@ -179,7 +186,8 @@ class ReproCheck:
                "pairs_per_randomness_source": per_source,
                "pairs_with_two_or_more_resource_types": sum(1 for w in compared if w["ntypes"] >= 2),
                "rows_compared": sum(w["rows"] for w in compared), "process_errors": len(errors),
-               "worlds_rejected_by_solver_licence": sum(1 for w in worlds if w.get("tool_limit"))}
+               "worlds_rejected_by_solver_licence": sum(1 for w in worlds if w.get("tool_limit") and not w.get("timed_out")),
+               "worlds_with_a_process_over_its_wall_clock_limit": sum(1 for w in worlds if w.get("timed_out"))}
         return {"violations": viol, "coverage": cov, "inconclusive": inconclusive,
                 "assumptions": ["one machine: different hash seeds and fresh processes stand in for 'other processes and machines'",
                                 "masked: last column of SCHEDULER_FINISHED (measured wall clock) and input_flag rows of output paths"]}
